@@ -20,9 +20,13 @@ CFG = {
     "technique": "Coq proof (invariants over operation histories of a fuel-recursive model of Struct.Value/Outdated) + vm_compute correspondence check",
     "design_ref": "DESIGN.md §4 C11, §5 entry 12",
     "n_quick": 150, "n_thorough": 1000,
-    "rule": "6 fixed histories (4-input node with 240 idle reads, 12-element array port with delete/append/clear, upstream "
-            "re-wiring, zero-input nodes, chain read repeatedly, only-the-last-dependency changes) + random histories of "
-            "30-90 (thorough 40-220) operations on graphs of 4-12 (thorough 4-40) nodes of 7 harness-defined struct kinds "
+    "rule": "9 fixed histories (4-input node with 240 idle reads, 12-element array port with delete/append/clear, upstream "
+            "re-wiring, zero-input nodes, chain read repeatedly, only-the-last-dependency changes, failing node in a "
+            "non-terminal position with the parameter toggling between rejected and accepted values and consumers read "
+            "without reading the failed node, node with two array ports and plain ports before/between/after them at "
+            "pairwise different versions with 240 idle reads, prefix-sharing names I/In.k/In2/Ina/Inb.k with 200 idle "
+            "reads) + random histories of "
+            "30-90 (thorough 40-220) operations on graphs of 4-12 (thorough 4-40) nodes of 9 harness-defined struct kinds, one third of them with a processor that returns an error when its hash is divisible by 3 "
             "(1-6 scalar ports, array ports, mixed) and both repository parameter kinds (parameter.Value, nodes.ValueNode); "
             "shapes chain / diamond / array fan-in (9-15 connections, names sort V.10 < V.2) / scalar fan-in / shared "
             "subgraph / random; operations: reads 34%, parameter updates 18% (1/6 with the same value), connects 20%, "
@@ -35,7 +39,7 @@ CFG = {
     "modelled": ["reflection helpers of refutil (SetStructField / AddToStructFieldArray / RemoveFromStructFieldArray / "
                  "FieldValuesOfType*) are modelled as list edits of named ports; declared panics of reflect are 'rejected'",
                  "Go map iteration order is modelled as an arbitrary permutation oracle",
-                 "subscriptions (Alert) and the err result of Process() are not modelled"],
+                 "subscriptions (Alert) are not modelled; the error component of Process() is write-only in the code (never returned by Value/State/Version/Outdated): the model keeps the value component, failing harness processors return a value no successful run produces"],
 }
 
 
